@@ -113,7 +113,7 @@ def _worker(task):
             if r["verdict"] == "sat":
                 # known finding? re-prove with the witness class excluded
                 for kf in known:
-                    if kf.get("obligation") == ob.name and kf.get("property") == prop:
+                    if (kf.get("obligation") == ob.name or ob.name in kf.get("obligations", [])) and kf.get("property") == prop and kf.get("exclusion"):
                         excl = getattr(importlib.import_module(kf["exclusion_module"]), kf["exclusion"])
                         from pyvc.contracts import Args, Obligation
                         import z3
